@@ -50,29 +50,56 @@ def xname(case, ci):
     return XN[ci] if case.get("dn") else "x"
 
 # ---------------------------------------------------------------------------------------------- impl side (worker)
+def nname(case, ni):
+    """frontend node path: `n<i>`, or `c<a|b>/n<i>` when the nodes are distributed over two sub-circuits (case["hier"])"""
+    return f"c{'ab'[case['hier'][ni]]}/n{ni}" if case.get("hier") else f"n{ni}"
+
+def opname(case, ni):
+    """operator name of node ni: `op<class>`, or `op<class>v` for the variant template whose declarations write the same
+    variables as length-1 arrays (same structural hash: merged with the scalar-declared nodes, operator renamed)"""
+    ci = case["nodes"][ni][0]
+    return f"op{ci}v" if case.get("arr1") and case["arr1"][ni] else f"op{ci}"
+
 def build(case, x0=None):
+    """class field `decl` (how variables are DECLARED; part of the structural hash, so such classes are never merged even
+    with equal equations): float (default) | kint (k declared by an integer literal: dtype int; its nodes get integer k,
+    a float override of an int-declared constant is D97's route) | xvar (x declared `variable(..)` instead of `output(..)`)"""
     from pyrates import OperatorTemplate, NodeTemplate, CircuitTemplate
-    ops = []
+    ops, opsv = [], []
     for ci, cl in enumerate(case["classes"]):
         xn = xname(case, ci)
-        eqs, vs = [], {xn: "output(0.0)", "k": 1.0, "r": f"input({num(cl['rdef'])})"}
-        if cl["g"] is not None:
-            eqs.append("m = " + poly_str(cl["g"], [xn, "k"]))
-            vs["m"] = "variable(0.0)"
-        eqs.append(f"{xn}' = " + poly_str(cl["f"], [xn, "k", "r"]))
-        ops.append(OperatorTemplate(name=f"op{ci}", equations=eqs, variables=vs))      # ONE template per operator name
+        decl = cl.get("decl", "float")
+        for arr in (False, True):
+            a1 = ",1" if arr else ""
+            eqs = []
+            vs = {xn: f"{'variable' if decl == 'xvar' else 'output'}(0.0{a1})", "k": 1 if decl == "kint" else 1.0,
+                  "r": f"input({num(cl['rdef'])}{a1})"}
+            if cl["g"] is not None:
+                eqs.append("m = " + poly_str(cl["g"], [xn, "k"]))
+                vs["m"] = f"variable(0.0{a1})"
+            eqs.append(f"{xn}' = " + poly_str(cl["f"], [xn, "k", "r"]))
+            (opsv if arr else ops).append(OperatorTemplate(name=f"op{ci}{'v' if arr else ''}", equations=eqs, variables=vs))   # ONE template per name
     nodes = {}
     for ni, (ci, k) in enumerate(case["nodes"]):
-        ov = {"k": float(Fr(k))}
+        kint = case["classes"][ci].get("decl") == "kint"
+        assert not kint or Fr(k).denominator == 1, "int-declared parameter with a fractional value (D97's route)"
+        ov = {"k": int(Fr(k)) if kint else float(Fr(k))}
         if x0 is not None:
             ov[xname(case, ci)] = float(Fr(x0[ni]))
-        nodes[f"n{ni}"] = NodeTemplate(f"n{ni}", operators={ops[ci]: ov})
+        tmpl = opsv[ci] if opname(case, ni).endswith("v") else ops[ci]
+        nodes[ni] = NodeTemplate(f"n{ni}", operators={tmpl: ov})
     edges = []
-    for s, t, w, sv in case["edges"]:
-        sc, tc = case["nodes"][s][0], case["nodes"][t][0]
-        edges.append((f"n{s}/op{sc}/{'m' if sv else xname(case, sc)}", f"n{t}/op{tc}/r", None,
-                      {} if w is None else {"weight": float(Fr(w))}))          # w None: the edge is written WITHOUT a weight entry
-    return CircuitTemplate("c", nodes=nodes, edges=edges)
+    for ei, (s, t, w, sv) in enumerate(case["edges"]):
+        sc = case["nodes"][s][0]
+        attrs = {} if w is None else {"weight": float(Fr(w))}          # w None: the edge is written WITHOUT a weight entry
+        if case.get("dnone") and case["dnone"][ei]:
+            attrs["delay"] = None                                       # an explicit `delay: None` = an undelayed edge (D69)
+        edges.append((f"{nname(case, s)}/{opname(case, s)}/{'m' if sv else xname(case, sc)}", f"{nname(case, t)}/{opname(case, t)}/r", None, attrs))
+    if case.get("hier"):                               # two sub-circuits, all edges (also those inside one) at the top level
+        subs = {f"c{'ab'[h]}": CircuitTemplate(f"c{'ab'[h]}", nodes={f"n{ni}": nd for ni, nd in nodes.items() if case["hier"][ni] == h})
+                for h in sorted(set(case["hier"]))}
+        return CircuitTemplate("c", circuits=subs, edges=edges)
+    return CircuitTemplate("c", nodes={f"n{ni}": nd for ni, nd in nodes.items()}, edges=edges)
 
 def build_raw(case):
     from pyrates import OperatorTemplate, NodeTemplate, CircuitTemplate
@@ -226,7 +253,7 @@ def _vector_field(case, vec, tag, template=None, in_place=True):
         elif mo:
             names = mo_vars(case)
         else:
-            names = [(f"n{ni}", f"op{ci}", xname(case, ci)) for ni, (ci, k) in enumerate(case["nodes"])]
+            names = [(nname(case, ni), opname(case, ni), xname(case, ci)) for ni, (ci, k) in enumerate(case["nodes"])]
         # unit positions from the compiled template's own maps (read-only)
         pos = []
         for n, op, xv in names:
@@ -270,7 +297,7 @@ def _trajectory(case, vec, tag):
     pyr.reset_pyrates()
     try:
         c = build(case, x0=case["states"][0])
-        outs = {f"n{ni}": f"n{ni}/op{ci}/{xname(case, ci)}" for ni, (ci, k) in enumerate(case["nodes"])}
+        outs = {f"n{ni}": f"{nname(case, ni)}/{opname(case, ni)}/{xname(case, ci)}" for ni, (ci, k) in enumerate(case["nodes"])}
         try:
             res = c.run(simulation_time=float(h * (steps + 1)), step_size=float(h), solver="euler", outputs=outs, vectorize=vec,
                         backend="default", float_precision="float64", verbose=False, clear=True, file_name=f"r{tag}")
@@ -386,6 +413,7 @@ def py_guards(case):
     for ci, _ in nodes:
         cnt[ci] = cnt.get(ci, 0) + 1
     bad = set()
+    bad |= set(decl_guards(case))
     sw = switches()
     if not sw["D21"] and any(cnt[ci] >= 2 and _const_rhs(classes[ci]["f"]) for ci in cnt):
         bad.add("no_constant_rhs")
@@ -430,6 +458,88 @@ def gen_f(rng, linear=False, allow_const=True):
     p = [[_q(rng, list(range(-8, 9)), [4]), 0, 0, 0], [c] + v, ["-" + c] + v]
     rng.shuffle(p)
     return p
+
+def fixed_env():
+    return {k.strip() for k in os.environ.get("VERIF_C04_FIXED", "").split(",") if k.strip()}
+
+def groups_of(case):
+    """vectorized edge groups (source class, source variable, target class) -> edge indices in edge-list order"""
+    g = {}
+    for ei, (s_, t, w, sv) in enumerate(case["edges"]):
+        g.setdefault((case["nodes"][s_][0], sv, case["nodes"][t][0]), []).append(ei)
+    return g
+
+def app_order(case):
+    """order in which the nodes are applied (get_nodes(['all'])): sub-circuit ca before cb when there is a hierarchy"""
+    idx = list(range(len(case["nodes"])))
+    return sorted(idx, key=lambda ni: (case["hier"][ni], ni)) if case.get("hier") else idx
+
+ARR1_GUARD = "array_declared_not_first"       # finding: aliasing of list-valued defaults in VectorizedOperatorGraph
+KEYS_GUARD = "uniform_edge_keys"             # finding: _group_edges KeyError on an attribute the first edge of a group lacks
+
+def decl_guards(case):
+    """python-side guards of the two declaration/attribute findings (attribution only; both are outside the Coq model's data)"""
+    bad, fixed = [], fixed_env()
+    if case.get("arr1") and "ARR1" not in fixed:
+        first = {}
+        for ni in app_order(case):
+            first.setdefault(case["nodes"][ni][0], ni)
+        if any(case["arr1"][ni] for ni in first.values()):
+            bad.append(ARR1_GUARD)
+    if case.get("dnone") and "EDGEKEYS" not in fixed:
+        for idxs in groups_of(case).values():
+            if not case["dnone"][idxs[0]] and any(case["dnone"][ei] for ei in idxs[1:]):
+                bad.append(KEYS_GUARD); break
+    return bad
+
+def decorate(rng, case):
+    """declaration variants (they change how variables are DECLARED, not the equations): classes that differ only in a
+    declaration (k int vs float, x `variable` vs `output`) must NOT be merged; nodes whose template writes the variables as
+    length-1 arrays have the same hash and ARE merged; edges that spell out `delay: None`."""
+    classes, nodes, edges = case["classes"], case["nodes"], case["edges"]
+    fixed = fixed_env()
+    r = rng.random()
+    if r < 0.3 and len(classes) >= 2:            # two classes with the SAME equations, different declaration
+        a, b = rng.sample(range(len(classes)), 2)
+        classes[b]["f"], classes[b]["g"] = json.loads(json.dumps(classes[a]["f"])), json.loads(json.dumps(classes[a]["g"]))
+        if classes[b]["g"] is None:
+            for e in edges:
+                if nodes[e[0]][0] == b:
+                    e[3] = 0
+        classes[rng.choice([a, b])]["decl"] = rng.choice(["kint", "kint", "xvar"])
+    elif r < 0.45:
+        classes[rng.randrange(len(classes))]["decl"] = rng.choice(["kint", "xvar"])
+    for ci, cl in enumerate(classes):
+        if cl.get("decl") == "kint":              # integer values only: a float override of an int-declared constant is D97
+            for n in nodes:
+                if n[0] == ci:
+                    n[1] = str(rng.randint(-3, 3))
+    for i, a in enumerate(classes):               # classes must stay pairwise different in (equations, declaration)
+        for b in classes[i + 1:]:
+            if (a["f"], a["g"], a.get("decl", "float")) == (b["f"], b["g"], b.get("decl", "float")):
+                b["decl"] = "xvar" if a.get("decl", "float") != "xvar" else "kint"
+                if b["decl"] == "kint":
+                    for n in nodes:
+                        if classes[n[0]] is b:
+                            n[1] = str(rng.randint(-3, 3))
+    if len(nodes) >= 2 and rng.random() < 0.2:   # the nodes live in two sub-circuits (hierarchy depth 2), edges at the top level
+        case["hier"] = [rng.randint(0, 1) for _ in nodes]
+    if rng.random() < 0.3:
+        seen, flags = set(), [0] * len(nodes)
+        for ni in app_order(case):                 # never the first node of its class in APPLICATION order (finding ARR1)
+            ci = nodes[ni][0]
+            flags[ni] = 1 if (ci in seen or "ARR1" in fixed) and rng.random() < 0.4 else 0
+            seen.add(ci)
+        if any(flags):
+            case["arr1"] = flags
+    if edges and rng.random() < 0.3:
+        flags = [1] * len(edges) if rng.random() < 0.4 else [1 if rng.random() < 0.4 else 0 for _ in edges]
+        if "EDGEKEYS" not in fixed:
+            for idxs in groups_of(case).values():
+                if any(flags[ei] for ei in idxs):
+                    flags[idxs[0]] = 1
+        if any(flags):
+            case["dnone"] = flags
 
 def gen_case(rng, kind="mixed"):
     """kinds: mixed (random density), sparse (>= 10 edges with distinct targets from one class: indexed branch),
@@ -567,6 +677,7 @@ def gen_case(rng, kind="mixed"):
     if kind == "traj":
         case["traj"] = dict(h="1/4", steps=4)
         case["dn"] = True
+    decorate(rng, case)
     if base_kind == "seq":
         # a sequence of compilations of ONE template object, both orders, 2-3 steps; in_place=False only for a non-vectorized
         # step (its unit positions are read from the returned state map; a vectorized step needs the template's own maps)
@@ -666,8 +777,8 @@ def coq_mcircuit(case):
     s<form>j<slot> -> 10*form + slot, m<form> -> 100 + form (names are not part of the structure)"""
     cls = []
     for ty in case["types"]:
-        ops = [f"Opr {coq_poly(S_POLY[f], 3)} None {cq(0)} []" for f, _ in ty["s"]]
-        ops.append(f"Opr {coq_poly(M_POLY[ty['m']], 3)} None {cq(0)} {clist([cnat(i) for i in range(len(ty['s']))])}")
+        ops = [f"Opr {coq_poly(S_POLY[f], 3)} None {cq(0)} [] 0" for f, _ in ty["s"]]
+        ops.append(f"Opr {coq_poly(M_POLY[ty['m']], 3)} None {cq(0)} {clist([cnat(i) for i in range(len(ty['s']))])} 0")
         cls.append(clist(ops))
     nodes = []
     for nd in case["nodes"]:
@@ -791,6 +902,10 @@ def _sparse_fanin(c):
             return True
     return False
 
+def _same_eq_diff_decl(c):
+    cl = c.get("classes", [])
+    return any((a["f"], a["g"]) == (b["f"], b["g"]) for i, a in enumerate(cl) for b in cl[i + 1:])
+
 def _mixed_sv(c):
     """one (source class, target class) pair is fed through both source variables (the D3 class, repaired by D59)"""
     seen = {}
@@ -830,6 +945,10 @@ def check(ctx):
     badI, badS, gv, wff = model_compare(ctx, [cases[i] for i in good], [outs[i] for i in good], "main")
     badI = [good[i] for i in badI]; badS = [good[i] for i in badS]
     guard_viol = {good[i]: g for i, g in gv.items()}
+    for i in good:                                  # findings about declarations / edge attribute keys (outside the Coq model's data)
+        extra = decl_guards(cases[i])
+        if extra:
+            guard_viol[i] = guard_viol.get(i, []) + extra
     assert not wff, f"generator produced ill-formed circuits: {[good[i] for i in wff][:5]}"
     # the property itself, on the real outputs alone (python, exact): vec == non-vec
     vec_ne_non = [i for i in good if raw_differs(outs[i])]
@@ -899,6 +1018,12 @@ def check(ctx):
                                        vec_then_nonvec=sum(1 for c in cases if c.get("seq") and c["seq"][0][0] == 1),
                                        with_in_place_false=sum(1 for c in cases if c.get("seq") and any(ip == 0 for _, ip in c["seq"]))),
                 sparse_fan_in_groups=sum(1 for c in cases if not c.get("raw") and not c.get("mo") and _sparse_fanin(c)),
+                declaration_variants=dict(
+                    same_equations_different_declaration=sum(1 for c in cases if _same_eq_diff_decl(c)),
+                    kint=sum(1 for c in cases if any(cl.get("decl") == "kint" for cl in c.get("classes", []))),
+                    xvar=sum(1 for c in cases if any(cl.get("decl") == "xvar" for cl in c.get("classes", []))),
+                    array_declared_nodes=sum(1 for c in cases if c.get("arr1")), explicit_delay_none=sum(1 for c in cases if c.get("dnone")),
+                    two_subcircuits=sum(1 for c in cases if c.get("hier"))),
                 mixed_source_variables=sum(1 for c in cases if not c.get("raw") and not c.get("mo") and _mixed_sv(c)),
                 max_nodes=max((len(c.get("nodes", [])) for c in cases), default=0))
     sample = dict(cases[-1]) if cases else {}
@@ -908,6 +1033,8 @@ def check(ctx):
                         "template per class, polynomial dyadic equations (degree <= 3), optional algebraic output variable, edge patterns: random density "
                         "0.05-1.0, >= 10 edges with distinct targets (indexed branch), single-unit fan-out to 9-12 units (D32 boundary), self-connections, "
                         "fan-in from several classes, parallel edges, edges without a weight entry mixed with weighted ones in one group (both orders), "
+                        "declaration variants (classes with equal equations whose variables are declared differently: k by an integer literal, x as `variable`; "
+                        "nodes whose template writes the variables as length-1 arrays; edges spelling out `delay: None`; nodes spread over two sub-circuits); "
                         ">= 10 one-to-one edges covering a whole vector in permuted order (ends fixed / last fixed / identity / arbitrary; sorted source indices "
                         "with repeats); rings / random sparse graphs of 14-24 units with fan-in and fill E/(targets x sources) on both sides of 0.1; "
                         "sequences of 2-3 compilations of ONE template object (vec->non-vec, non-vec->vec, in_place True/False, clear=True); "
